@@ -192,10 +192,10 @@ theorem complex_nan_cell_written_as_missing (E : FloatExt) (m : Str) (fill : PyV
     saveCell E m .complex fill (.complex a b) = .ok m := by
   simp [saveCell, trialParse, substitute, pyStr, hp, hf, hb, hc, Except.bind]
 
-/-- the faults that do not end in the SCSV error (as the code is written) -/
-example : roundTrip ⟨some [','], some "-".toList, some [fStr "a" "z"]⟩ [] = .error .index := by decide
+/-- faults that ended in IndexError / KeyError before commits cc8cd84 / c90071b -/
+example : roundTrip ⟨some [','], some "-".toList, some [fStr "a" "z"]⟩ [] = .error .scsv := by decide
 example : roundTrip ⟨some [','], some "-".toList, some [⟨none, some "string".toList, none, none⟩]⟩ [[sv "x"]]
-    = .error .key := by decide
+    = .error .scsv := by decide
 
 /-! ## the repaired defects (before commit 78c9fb7 the header scalars were written as plain scalars)
 
